@@ -708,9 +708,15 @@ def r10(ctx, facts):
     c18_r6(ctx, facts)
 
 
+def r11(ctx, facts):
+    """shared with C18 (stated there): the timestamp field of every QUERY / EXECUTE / BATCH frame is the statement's own timestamp, the generator's only as its fallback"""
+    from .c18 import r5 as c18_r5
+    c18_r5(ctx, facts)
+
+
 def check(ctx):
     facts = inline_view(ctx.facts("default"))
-    for fn in (r1_r2, r6, r4, r5, r7, r8, r9, r10):
+    for fn in (r1_r2, r6, r4, r5, r7, r8, r9, r10, r11):
         try:
             fn(ctx, facts)
         except AnchorLost as ex:
